@@ -183,6 +183,28 @@ theorem system_stays_closed {env : Env} {s s' : State} {c : Call} {r : Result}
         split <;> simp [ho]
       · rw [body_sysOpen env s c hc (fun k hk' => hk ⟨k, hk'⟩)]; exact ho
 
+/-- A closed interface stays closed under every call except `TLOpenInterface` (so the next
+`TLOpenInterface` with the interface's id on a live system handle succeeds,
+`open_closed_interface_ok`). -/
+theorem interface_stays_closed {env : Env} {s s' : State} {c : Call} {r : Result}
+    (h : step env s c = .done s' r) (ho : s.ifOpen = false)
+    (hc : ∀ h id k, c ≠ .tlOpenInterface h id k) : s'.ifOpen = false := by
+  unfold step at h
+  split at h
+  · rw [(finish_done h).1.2.2.1]; exact ho
+  · split at h
+    · cases h; exact ho
+    · rw [(finish_done h).1.2.2.1]
+      by_cases hk : ∃ k, c = .tlClose k
+      · obtain ⟨k, rfl⟩ := hk
+        simp only [body]
+        split <;> (try split) <;> simp [ho, State.setSlot]
+      · by_cases hk2 : ∃ k, c = .ifClose k
+        · obtain ⟨k, rfl⟩ := hk2
+          simp only [body]
+          split <;> simp [ho, State.setSlot]
+        · rw [body_ifOpen env s c hc (fun k hk' => hk ⟨k, hk'⟩) (fun k hk' => hk2 ⟨k, hk'⟩)]; exact ho
+
 /-- Over arbitrary call sequences: whatever happens between a successful `TLClose` and the next
 `TLOpen` (any calls on any handles, including closing and re-initialising the library), that
 `TLOpen` succeeds as soon as the library is initialised. -/
@@ -291,6 +313,16 @@ theorem last_error_query (env : Env) (s : State) (e : Err) (d : Dst)
     have := hd old hb
     have h2 : ¬ d.size < e.text.length + 1 := by omega
     simp [step, Call.noAssert, usesFreed, Call.handle?, body, hi, he, finish, copyTo, Val.image, ha, hb, h2]
+
+/-- `GCGetLastError` with a text buffer that is too small: BUFFER_TOO_SMALL, neither the buffer nor
+the size nor `*piErrorCode` is written (and this failure becomes the last error). -/
+theorem last_error_query_too_small (env : Env) (s : State) (e : Err) (old : Bytes) (n : Nat)
+    (hi : s.libInit = true) (he : s.lastErr = some e) (ha : isAscii e.text = true)
+    (hn : n < e.text.length + 1) :
+    step env s (.getLastError ⟨some old, n⟩) =
+      .done { s with lastErr := some .bufferTooSmall } ⟨-1016, .lastError none ⟨some old, n⟩⟩ := by
+  simp [step, Call.noAssert, usesFreed, Call.handle?, body, hi, he, finish, copyTo, Val.image, ha, hn,
+    Err.code, Call.untouched]
 
 /-- The fixed error texts are ASCII. -/
 theorem error_text_ascii (e : Err) (h1 : ∀ id, e ≠ .invalidId id) (h2 : ∀ m, e ≠ .invalidValue m) :
@@ -607,5 +639,169 @@ theorem gcWritePort_never_aborts (env : Env) (s : State) (h address : Nat) (data
 /-- non-vacuity of the write theorem: a 4-byte write of zero to the InterfaceSelector register
 (address 1028) of a well-formed initial state is stored and returns Ok. -/
 example : (sysMap ⟨[], [], []⟩).rightOfRange 1028 1032 = .rw := by decide
+
+/-! ## 7. No call, and no call sequence, aborts the process -/
+
+private theorem wantSystem_ne_panic (x : Slot) : wantSystem x ≠ .panic := by cases x <;> simp [wantSystem]
+private theorem wantInterface_ne_panic (x : Slot) : wantInterface x ≠ .panic := by cases x <;> simp [wantInterface]
+private theorem portOf_ne_panic (x : Slot) : portOf x ≠ .panic := by cases x <;> simp [portOf]
+private theorem portMeta_ne_panic (s : State) (m : Module) : portMeta s m ≠ .panic := by
+  cases m <;> simp [portMeta]; split <;> simp
+
+private theorem image_ne_panic (v : Val) : v.image ≠ .panic := by
+  cases v <;> simp [Val.image]
+  split <;> simp
+
+private theorem copyTo_ne_panic (v : Val) (d : Dst) : copyTo v d ≠ .panic := by
+  unfold copyTo
+  have := image_ne_panic v
+  split
+  · split
+    · split <;> simp
+    · simp
+  · simp
+  · contradiction
+
+private theorem portRead_ne_panic (env : Env) (s : State) (m : Module) (a n : Nat) :
+    portRead env s m a n ≠ .panic := by
+  rcases port_read_exact_or_error env s m a n with ⟨h, _⟩ | h | h | ⟨h, _⟩ <;> rw [h] <;> simp
+
+private theorem portWrite_ne_panic (env : Env) (s : State) (m : Module) (a : Nat) (d : Bytes) (hwf : WF env s) :
+    (portWrite env s m a d).2 ≠ .panic := by
+  rcases port_write_exact_or_error env s m a d hwf with ⟨e, h, _⟩ | ⟨s', r, h, _, _, _, hr⟩
+  · rw [h]; simp
+  · rw [h]; rcases hr with rfl | rfl | ⟨rfl, _⟩ <;> simp
+
+private theorem readStacked_ne_panic (env : Env) (s : State) (m : Module) (es : List (Nat × Nat × Bytes)) (n : Nat)
+    (acc : List Bytes) : (readStacked env s m es n acc).2.2 ≠ .panic := by
+  induction es generalizing n acc with
+  | nil => simp [readStacked]
+  | cons e es ih =>
+    obtain ⟨a, size, buf⟩ := e
+    unfold readStacked
+    split
+    · exact ih _ _
+    · simp
+    · rename_i h; exact absurd h (portRead_ne_panic env s m a size)
+
+private theorem writeStacked_ne_panic (env : Env) (m : Module) (s : State) (es : List (Nat × Bytes)) (n : Nat)
+    (hwf : WF env s) : (writeStacked env m s es n).2.2 ≠ .panic := by
+  induction es generalizing s n with
+  | nil => simp [writeStacked]
+  | cons e es ih =>
+    obtain ⟨a, data⟩ := e
+    unfold writeStacked
+    split
+    · rename_i s' _ heq
+      exact ih _ _ (portWrite_eq_wf hwf heq)
+    · simp
+    · rename_i s' heq
+      have := portWrite_ne_panic env s m a data hwf
+      rw [heq] at this
+      simp at this
+
+private theorem tlInfo_ne_panic (env : Env) (cmd : Int) (r : Res Err Val) (hp : fileName env.path ≠ none)
+    (h : tlInfo env cmd = some r) : r ≠ .panic := by
+  unfold tlInfo at h
+  repeat' split at h
+  all_goals (try (cases h; simp))
+  all_goals simp_all
+
+private theorem urlInfo_ne_panic (env : Env) (m : Module) (cmd : Int) : urlInfo env m cmd ≠ .panic := by
+  unfold urlInfo
+  repeat' split
+  all_goals simp
+
+private theorem queryValue_ne_panic (env : Env) (s : State) (q : Query) (hp : fileName env.path ≠ none) :
+    queryValue env s q ≠ .panic := by
+  cases q <;> simp only [queryValue] <;> (repeat' split) <;>
+    simp_all [wantSystem_ne_panic, wantInterface_ne_panic, portOf_ne_panic, portMeta_ne_panic, urlInfo_ne_panic]
+  exact tlInfo_ne_panic env _ _ hp (by assumption)
+
+private theorem infoOut_ne_panic (v : Val) (d : Dst) : infoOut v d ≠ .panic := by
+  unfold infoOut; have := copyTo_ne_panic v d; split <;> simp_all
+
+private theorem copyOut_ne_panic (v : Val) (d : Dst) : copyOut v d ≠ .panic := by
+  unfold copyOut; have := copyTo_ne_panic v d; split <;> simp_all
+
+private theorem portWrite_eq_ne_panic {env : Env} {s s' : State} {m : Module} {a : Nat} {d : Bytes} {r : GR Nat}
+    (hwf : WF env s) (h : portWrite env s m a d = (s', r)) : r ≠ .panic := by
+  have := portWrite_ne_panic env s m a d hwf
+  rw [h] at this; exact this
+
+private theorem readStacked_eq_ne_panic {env : Env} {s : State} {m : Module} {es : List (Nat × Nat × Bytes)}
+    {n k : Nat} {acc bufs : List Bytes} {r : GR Unit}
+    (h : readStacked env s m es n acc = (k, bufs, r)) : r ≠ .panic := by
+  have := readStacked_ne_panic env s m es n acc
+  rw [h] at this; exact this
+
+private theorem writeStacked_eq_ne_panic {env : Env} {m : Module} {s s' : State} {es : List (Nat × Bytes)}
+    {n k : Nat} {r : GR Unit} (hwf : WF env s)
+    (h : writeStacked env m s es n = (s', k, r)) : r ≠ .panic := by
+  have := writeStacked_ne_panic env m s es n hwf
+  rw [h] at this; exact this
+
+/-- No call body panics in a well-formed state. -/
+private theorem body_ne_panic (env : Env) (s : State) (c : Call) (hwf : WF env s) (hp : fileName env.path ≠ none) :
+    (body env s c).res ≠ .panic := by
+  cases c <;> simp only [body] <;> (repeat' split)
+  all_goals (try simp)
+  all_goals first
+    | exact infoOut_ne_panic _ _
+    | exact copyOut_ne_panic _ _
+    | exact portWrite_eq_ne_panic hwf (by assumption) rfl
+    | exact readStacked_eq_ne_panic (by assumption) rfl
+    | exact writeStacked_eq_ne_panic hwf (by assumption) rfl
+    | simp_all [wantSystem_ne_panic, wantInterface_ne_panic, portOf_ne_panic, portMeta_ne_panic,
+        copyTo_ne_panic, queryValue_ne_panic, portRead_ne_panic]
+
+/-- **No C call aborts the process**: in every well-formed state (every state reachable from the
+initial one, `wf_init` / `wf_run`), every entry point with every argument returns. -/
+theorem step_never_aborts (env : Env) (s : State) (c : Call) (hwf : WF env s)
+    (hp : fileName env.path ≠ none) : step env s c ≠ .abort := by
+  unfold step
+  split
+  · simp [finish]
+  · split
+    · simp
+    · have := body_ne_panic env s c hwf hp
+      unfold finish
+      split <;> simp_all
+
+/-- … hence no call sequence does: from a well-formed state `run` always ends with a state. -/
+theorem run_never_aborts (env : Env) (hp : fileName env.path ≠ none) (cs : List Call) :
+    ∀ s, WF env s → ∃ rs s', run env s cs = (rs, some s') ∧ rs.length = cs.length := by
+  induction cs with
+  | nil => intro s _; exact ⟨[], s, rfl, rfl⟩
+  | cons c cs ih =>
+    intro s hwf
+    cases hstep : step env s c with
+    | abort => exact absurd hstep (step_never_aborts env s c hwf hp)
+    | done s1 r =>
+      obtain ⟨rs, s', h, hl⟩ := ih s1 (wf_step hstep hwf)
+      exact ⟨r :: rs, s', by simp [run, hstep, h], by simp [hl]⟩
+
+example : fileName (asc "/repo/gentl/src/imp/system/mod.rs") = some (asc "mod.rs") := by decide
+
+/-- From the library's initial state no call sequence whatsoever — any entry points, any handles,
+indexes, commands, ids, buffers, addresses, sizes, data — crashes the process. -/
+theorem no_call_sequence_crashes (env : Env) (hlen : env.path.length ≤ 1024)
+    (hname : fileName env.path ≠ none) (cs : List Call) :
+    ∃ rs s', run env (State.init env) cs = (rs, some s') ∧ rs.length = cs.length :=
+  run_never_aborts env hname cs _ (wf_init env hlen)
+
+/-! ## 8. The register tables are the `#[register_map]` layout -/
+
+/-- Addresses are base 0 + running sum of the lengths, the XML register closes each map, and
+re-writing the InterfaceID register (what `handle_interface_selector_change` does) notifies no
+observer — for every XML length. -/
+theorem register_layout (env : Env) :
+    layoutOk 0 (sysMap env).regs = true ∧ layoutOk 0 (ifMap env).regs = true ∧
+    (sysMap env).size = 1120 + env.sysXml.length ∧ (ifMap env).size = 336 + env.ifXml.length ∧
+    fired (sysMap env) 1036 1100 = [] := by
+  refine ⟨?_, ?_, rfl, rfl, ?_⟩
+  · simp [layoutOk, sysMap, SYS_XML_ADDRESS]
+  · simp [layoutOk, ifMap, IF_XML_ADDRESS]
+  · simp [fired, sysMap]
 
 end CamVerif.C19
